@@ -15,7 +15,7 @@ import (
 var (
 	pidPool   = []string{"p1", "p2", "pa/b", "q", "zk", "Zk"} // "zk"/"Zk": ids are compared exactly (no pattern of queryPool tells them apart other than "*")
 	cbPool    = []string{"c1", "c2", "t1"} // "t1" collides with a task id on purpose (CreateTasks natural error)
-	taskPool  = []string{"t1", "t2", "c1"}
+	taskPool  = []string{"t1", "t2", "c1", "__invoke:p1", "__invoke:q"} // the last two: a task row may already carry the id a later create-with-task derives
 	schedPool = []string{"s1", "s2", "sx"}
 	resPool   = []string{"r1", "r2"}
 	execPool  = []string{"e1", "e2"}
@@ -252,7 +252,9 @@ func (g G) Command() *t_aio.Command {
 	case t_aio.CreatePromiseAndTask:
 		p := g.createPromise()
 		t := g.createTask()
-		t.Id = "__invoke:" + p.Id
+		if g.uni(5, "taskidfrompool") != 0 { // the kernel derives the id; the store takes whatever it is given
+			t.Id = "__invoke:" + p.Id
+		}
 		t.Mesg = &message.Mesg{Type: message.Invoke, Root: p.Id, Leaf: p.Id}
 		c.CreatePromiseAndTask = &t_aio.CreatePromiseAndTaskCommand{PromiseCommand: p, TaskCommand: t}
 	case t_aio.ReadLock:
